@@ -304,6 +304,9 @@ def m_isa(m, x, y):
 def reference(m, v):
     """Allowed outcomes of calling the multimethod with dispatch value v under model m:
     a set of outcome tuples, or None when the case is disputed (anything goes)."""
+    if v == DEFAULT:
+        # the default key used as a dispatch value: its own method is an exact match
+        return {("M", DEFAULT)} if DEFAULT in m.methods else {("EXC", "NotImplementedError")}
     cands = [k for k in m.methods if k != DEFAULT and m_isa(m, v, k)]
 
     def dom(x, y):
@@ -441,7 +444,7 @@ def _check_dispatch(w, m, where):
     """O1 (+O1b order independence) and O2 for every dispatch value."""
     fresh = w.fresh_from()
     fresh_rev = w.fresh_from(reverse=True)
-    for v in KWS + CLS + ["zz"]:
+    for v in KWS + CLS + ["zz", DEFAULT]:
         got = w.call(v)
         f1 = w.call(v, fresh)
         if got != f1:
